@@ -49,6 +49,13 @@ impl<'a, 'b> InterpStack<'a, 'b> {
                             }
                         }
 
+                        // While the compiler folds constants nothing is bound
+                        // yet: abandon the evaluation instead of handing out an
+                        // error value that `||`, `match` or a macro could absorb.
+                        if self.ctx.is_compile_time() {
+                            return Err(CelError::binding(&name));
+                        }
+
                         Ok(CelValue::from_err(CelError::binding(&name)).into())
                     } else {
                         Ok(val.into())
@@ -546,6 +553,10 @@ impl<'a> Interpreter<'a> {
             }
         }
         Ok(arg_values)
+    }
+
+    fn is_compile_time(&self) -> bool {
+        self.bindings.map_or(false, |b| b.is_compile_time())
     }
 
     fn get_param_by_name(&self, name: &str) -> Option<&'a CelValue> {
